@@ -361,7 +361,8 @@ def rf72(run):
     rb = branches[0]['c'][2]
     jumps = []
     for x in F.walk(rb):
-        if x['k'] == 'IfStmt' and 'stop_insn' in F.src(x['c'][0]) and ('_next' in F.src(x['c'][0])):
+        c_ = F.strip(x['c'][0]) if x['k'] == 'IfStmt' else None
+        if c_ is not None and c_['k'] == 'BinaryOperator' and c_['op'] == '!=' and 'stop_insn' in F.src(c_) and ('_next' in F.src(c_)):
             for y in F.walk(x['c'][1]):
                 if y['k'] == 'CallExpr' and y.get('callee') == 'MIR_new_insn' and len(F.call_args(y)) >= 3 and F.src(F.strip(F.call_args(y)[1])) == 'MIR_JMP':
                     lab = F.strip(F.call_args(y)[2])
